@@ -116,20 +116,6 @@ func hopByHopHeaderRemove(outreq, req *bfe_http.Request) {
 		}
 	}
 
-	// Remove headers listed in the "Connection" header.
-	// See RFC 7230, section 6.1
-	for _, f := range req.Header["Connection"] {
-		for _, sf := range strings.Split(f, ",") {
-			if sf = strings.TrimSpace(sf); sf == "" {
-				continue
-			}
-			if _, ok := outreq.Header[bfe_http.CanonicalHeaderKey(sf)]; ok {
-				copyHeaders()
-				outreq.Header.Del(sf)
-			}
-		}
-	}
-
 	for _, h := range bfe_basic.HopHeaders {
 		// Note: check values directly, the first value of header may be empty
 		hvs, ok := outreq.Header[h]
@@ -149,6 +135,24 @@ func hopByHopHeaderRemove(outreq, req *bfe_http.Request) {
 
 		copyHeaders()
 		outreq.Header.Del(h)
+	}
+}
+
+// connectionHeaderRemove removes request headers listed in the "Connection"
+// header (RFC 7230, section 6.1). These headers are hop-by-hop for the client
+// connection, so they are removed once the request is received. Headers set
+// later (eg. X-Real-Ip, X-Forwarded-For) are for the backend and not affected.
+func connectionHeaderRemove(req *bfe_http.Request) {
+	for _, f := range req.Header["Connection"] {
+		for _, sf := range strings.Split(f, ",") {
+			if sf = strings.TrimSpace(sf); sf == "" {
+				continue
+			}
+			// Note: the "Connection" header itself is removed in hopByHopHeaderRemove()
+			if key := bfe_http.CanonicalHeaderKey(sf); key != "Connection" {
+				delete(req.Header, key)
+			}
+		}
 	}
 }
 
@@ -610,6 +614,9 @@ func (p *ReverseProxy) ServeHTTP(rw bfe_http.ResponseWriter, basicReq *bfe_basic
 
 	// set clientip of original user for request
 	setClientAddr(basicReq)
+
+	// remove headers listed in the "Connection" header
+	connectionHeaderRemove(req)
 
 	// Callback for HandleBeforeLocation
 	hl = srv.CallBacks.GetHandlerList(bfe_module.HandleBeforeLocation)
